@@ -95,6 +95,52 @@ def cases(rng, tier):
         g[cut + 6:cut + 10] = b"\xde\xad\xbe\xef"
         for r in ("mem", "fd"):
             yield ("file %s %s c" % (r, hexs(g)), "zero-register-window")
+    # --- files whose checksum holds a zero byte (at offset 6, 7 or 8): alterations of the checksum bytes BEHIND the zero,
+    # and another body whose checksum agrees up to and including the zero (a comparison of the four bytes that stops
+    # at a zero, as string comparisons do, accepts both)
+    for pos in (0, 1, 2):
+        L = rng.choice([24, 40, 300])
+        f0 = bytearray(valid_file(rng, L))
+        hits = []
+        for v in range(65536):
+            f0[L - 2], f0[L - 1] = v & 255, v >> 8
+            c = skyb.ap_crc32(bytes(f0[:6]) + b"\0\0\0\0" + bytes(f0[10:]))
+            if (c >> (8 * pos)) & 255 == 0 and all((c >> (8 * q)) & 255 for q in range(4) if q != pos):
+                hits.append((v, c))
+                if len(hits) >= (40 if pos == 0 else 1):
+                    break
+        files = []
+        for v, c in hits:
+            g = bytearray(f0)
+            g[L - 2], g[L - 1] = v & 255, v >> 8
+            g[6:10] = bytes([c & 255, (c >> 8) & 255, (c >> 16) & 255, (c >> 24) & 255])
+            files.append((g, c))
+        g, c = files[0]
+        for r in ("mem", "fd"):
+            yield ("file %s %s v,c" % (r, hexs(g)), "crc-zero-byte-valid")
+            for k in ("traj", "light", "yaw", "rth"):
+                yield ("load %s %s %s" % (k, r, hexs(g)), "crc-zero-byte-valid-load")
+        for bit in range(48, 80):
+            h = bytearray(g)
+            h[bit // 8] ^= 1 << (bit % 8)
+            for r in ("mem", "fd"):
+                yield ("file %s %s c" % (r, hexs(h)), "crc-zero-byte-flip")
+            if bit % 8 == 0:
+                yield ("load %s %s %s" % (("traj", "light", "yaw", "rth")[(bit // 8) % 4], "mem", hexs(h)), "crc-zero-byte-flip-load")
+        for start in range(6 + pos + 1, 10):
+            for pat in (b"\0\0\0\0", b"\xff\xff\xff\xff", bytes(rng.randrange(256) for _ in range(4))):
+                h = bytearray(g)
+                h[start:10] = pat[:10 - start]
+                if h != g:
+                    yield ("file %s %s c" % (rng.choice(["mem", "fd"]), hexs(h)), "crc-zero-byte-window")
+        # the body of one file with the checksum of another that shares the low byte(s) up to the zero
+        for g2, c2 in files[1:]:
+            mask = (1 << (8 * (pos + 1))) - 1
+            if c2 != c and (c2 & mask) == (c & mask):
+                h = bytearray(g2)
+                h[6:10] = g[6:10]
+                for r in ("mem", "fd"):
+                    yield ("file %s %s c" % (r, hexs(h)), "crc-zero-byte-other-body")
     # --- corrupted files
     lens = [10, 13, 24, 200, 255, 256, 257, 266, 511, 512, 513, 522] + ([768, 1024, 1025, 1290] if thorough else [768])
     for L in lens:
